@@ -13,6 +13,12 @@ CHECKS = {
         "text": "Bounded symbolic verification: for a fully generic ladder-moment state (m, C=C^+, G=G^T) on d<=2 (thorough d<=3) modes and symbolic hbar>0, z3 decides that setters and getters are mutually inverse in both orderings, that the complex representation is the documented W-transform, that reduction/rotation commute with the representation maps for every ordered mode subset and every angle, that means scale with sqrt(hbar) and covariances with hbar, and that every dimensionless observable (purity, photon-number mean/variance, parity, xp/ladder string moments, quadratic polynomials, the arguments handed to the threshold kernel, the (A,b,c) triple of the density-matrix calculation) equals its value at hbar=2. 'All hbar' needs a symbolic hbar; tests run at hbar=2 only.",
         "note": "Trusted: z3/cvc5, numpy facade (validated per run on physical random states), CPython. Config(validate=False) in the harness (LAPACK eigenvalue validators are outside). Outside: fidelity (eigvals), Wigner function, torontonian/hafnian kernels themselves, d>3, float rounding.",
     },
+    "C20": {
+        "engine": "E-CH + E-XA explorer (UF abstraction)",
+        "technique": "symbolic execution of Expression._eval vs Python's eval: (a) solver-guided path exploration under an uninterpreted-function abstraction of numbers with z3 (EUF) deciding result equality on every truth path, (b) CrossHair (z3) over all integer outcome tuples in a box",
+        "text": "Bounded symbolic verification. (a) For every generated source (all operators at depth 1, all 196 ordered operator pairs at depth 2 in three groupings, unary forms, 300/3000 seed-sampled depth-3 trees) Expression(src) and eval(src) are run on a tuple of opaque numbers whose arithmetic is uninterpreted and whose comparisons/truthiness are z3 Bools; the explorer follows every feasible truth path and z3 decides that both results are equal - this covers operands of any numeric type and all short-circuit / chained-comparison behaviour. (b) CrossHair confirms value-and-type equality with eval for all int tuples in [-8,8]^4 for the families that z3 decides (depth-1 operators, constant powers, all 36 comparison chains, indexing/slicing forms) and read-order equality. (c) A solver-chosen (construct, embedding) pair from a table of 50 constructs outside the documented grammar must raise InvalidExpression at construction in Expression, Instruction.when and string parameters.",
+        "note": "Trusted: z3, CrossHair's model of Python ints/tuples, CPython's eval as the oracle. Source strings are enumerated/sampled (ast.parse realises symbolic strings) - bound: depth 3. Candidates of the UF over-approximation count only if they replay on concrete ints. Outside: symbolic exponents, float entries in (b), strings deeper than 3, resource exhaustion by huge powers.",
+    },
 }
 NOT_APPLICABLE = {p: NB for p in ["C%02d" % i for i in range(1, 21)] if p not in CHECKS}
 NOT_APPLICABLE["C09"] = ("needs TensorFlow/JAX/XLA execution (tf.function, jax.jit, tf.linalg, XLA FFI); none of it can run on symbolic values and no "
